@@ -116,7 +116,8 @@ def check_parse(L):
 # ---------------------------------------------------------------------------
 
 LEAVES = ['a', 'x' * 100, 'a-b-c', '"a b"', '"a""b"', '"("', '";"', '|q r|',
-          '|a\nb|', '; c\n', '#b01', ':kw']
+          '|a\nb|', '; c\n', '#b01', ':kw', '"a \n;b"', '|x \n; y|',
+          '"  two  "']
 
 
 def build(pl):
@@ -195,7 +196,7 @@ def check_render(maxn):
         for sh in shapes(n):
             k = count_leaves(sh)
             if k > 2:
-                labs_iter = itertools.product(LEAVES[:6], repeat=k)
+                labs_iter = itertools.product(LEAVES[:6] + LEAVES[12:14], repeat=k)
             else:
                 labs_iter = itertools.product(LEAVES, repeat=k)
             for labs in labs_iter:
